@@ -23,3 +23,25 @@ Proof. exact has_wildcards_spec. Qed.
 
 Theorem c12_split_join : forall ls, ls <> [] -> Forall (fun l => ~ In SLASH l) ls -> split (join ls) = ls.
 Proof. exact split_join. Qed.
+
+(** The broker's topic -> filters cache (DataLog::matches / next_native_offset in router/logs.rs) in
+    every state the router can reach by ANY op sequence (any order of creating filters and first
+    publishing topics, any HashMap order): a cached topic lists every existing filter that matches
+    it by [matches] — exactly once — and only logs whose filter matches it. *)
+From Rumqtt Require Router.CacheSpec Router.Types Router.Model Router.RunDefs.
+
+Theorem c12_cache_complete : forall (cfg : Router.Types.config) (st0 : Router.Types.rstate)
+    (ops : list (list Router.Types.oracle * Router.Model.rop)) (st : Router.Types.rstate),
+  Router.Model.init cfg = Ok st0 -> Router.RunDefs.run st0 ops = Ok st ->
+  forall (t : list N) (v : list N), In (t, v) (Router.Types.dl_pfilters (Router.Types.r_datalog st)) ->
+    NoDup v /\ forall (f : list N) (i : N), In (f, i) (Router.Types.dl_findex (Router.Types.r_datalog st)) ->
+      matches t f = Ok true -> In i v.
+Proof. exact Router.CacheSpec.cache_complete. Qed.
+
+Theorem c12_cache_sound : forall (cfg : Router.Types.config) (st0 : Router.Types.rstate)
+    (ops : list (list Router.Types.oracle * Router.Model.rop)) (st : Router.Types.rstate),
+  Router.Model.init cfg = Ok st0 -> Router.RunDefs.run st0 ops = Ok st ->
+  forall (t : list N) (v : list N) (i : N), In (t, v) (Router.Types.dl_pfilters (Router.Types.r_datalog st)) -> In i v ->
+    exists d, Router.Types.slab_get (Router.Types.dl_native (Router.Types.r_datalog st)) i = Some d /\
+              matches t (Router.Types.d_filter d) = Ok true.
+Proof. exact Router.CacheSpec.cache_sound. Qed.
